@@ -1,12 +1,12 @@
-import RsslVerif.Model.GenMsl
-import RsslVerif.Spec.Sem
+import RsslVerif.Lemmas.GenMslSim
 /-!
 # C02, semantic half — the Metal exporter preserves the meaning of the scalar subset
 
 Theorems about `Model.GenMsl` (the expression / statement / function half of `msl/src/generator.rs`).
 -/
 namespace RsslVerif.Thm.C02Sem
-open RsslVerif.Gen.HlslGenTables RsslVerif.Gen.MslGenTables RsslVerif.Model RsslVerif.Model.GenMsl RsslVerif.Spec.Sem
+open RsslVerif.Gen.HlslGenTables RsslVerif.Gen.MslGenTables RsslVerif.Model RsslVerif.Model.GenMsl RsslVerif.Spec.Sem RsslVerif.Lemmas.GenMsl
+open RsslVerif.Model.Ir (Ty Var Const Dir)
 
 /-- the textual shape of every arm of `generate_expression` / `generate_intrinsic_op` / `generate_statement` /
 `generate_scope_block` / `generate_for_init` / `generate_variable_definition` / `generate_user_call` /
@@ -42,20 +42,53 @@ theorem msl_op_table_is_identity :
 
 /-- the Metal literal function has the same arms, in the same order, as the HLSL one (`Gen.HlslGenTables.literalArms`):
 what C01 proves about the tree of a constant holds for the Metal tree as well -/
-theorem msl_literal_arms_same_as_hlsl : mslLiteralArms = literalArms := by decide
+theorem msl_literal_arms_same_as_hlsl : mslLiteralArms = literalArms := Lemmas.GenMsl.literal_arms_eq
 
-theorem msl_findArm_eq (k : ConstKind) (v : Int) : GenMsl.findArm k v = GenHlsl.findArm k v := by
-  simp [GenMsl.findArm, GenHlsl.findArm, msl_literal_arms_same_as_hlsl]
+theorem msl_genLiteral_eq (c : Ir.Const) : GenMsl.genLiteral c = GenHlsl.genLiteral c := Lemmas.GenMsl.genLiteral_eq c
 
-theorem msl_genLiteral_eq (c : Ir.Const) : GenMsl.genLiteral c = GenHlsl.genLiteral c := by
-  unfold GenMsl.genLiteral GenHlsl.genLiteral
-  rw [msl_findArm_eq]
-  cases GenHlsl.findArm c.kind (GenHlsl.Const.intValue c) with
-  | none => rfl
-  | some arm =>
-    cases arm with
-    | negMinus k => cases k <;> cases GenHlsl.negMagnitude true c <;> rfl
-    | negMinusAbs k => cases k <;> cases GenHlsl.negMagnitude false c <;> rfl
-    | _ => rfl
+/-! ## meaning preservation: expressions
+
+`Msl.eval` is the C++/Metal reading of the emitted syntax (`Spec.SemMsl`): Metal's literal types, integer promotion and
+usual arithmetic conversions, Metal's shift rule, by-value and by-reference (`thread T&`) parameters.  `Ir.eval` is the
+typed semantics of C01, unchanged.  Hypotheses: the type checker accepted the expression (`Ir.typeOf`); the side
+conditions `Ir.okM` (`Spec.SemMslWT`: where the Metal reading is *known* to coincide — each excluded form is either one of
+the two known findings or needs run-time types of variables); the emitted names denote the IR's entities in the frame at
+hand, for the variables in scope there (`AgreeM`); the callable functions of the two worlds are linked by `Worlds`:
+a Metal call with variables for the out/inout parameters and references to the needed statics behaves as copy-in /
+copy-out around the typed function (discharged for whole programs by `gen_sem_program`). -/
+
+/-- **expressions**: the emitted expression has a static type `ta` under C++ rules and — converted to the IR's type `t`,
+which is what every context the exporter places it in does — evaluates to exactly the IR's value and store, from every
+store, for every interpretation of the primitives.  All expression forms of the model: typed constants, locals,
+statics (reference parameters in Metal), unary / binary / assignment / increment operators incl. `%` on floats
+(`metal::fmod`), `?:`, `Sequence`, casts, calls of user functions with in/out/inout arguments and appended statics. -/
+theorem gen_sem_expr {W : World} {M : Msl.MWorld} {env : Ast.Env} {cx : Ctx} {vis : Var → Bool} {rsv : Nat → List Var}
+    (hag : AgreeM cx vis env) (hw : Worlds cx rsv W M) (e : Ir.Expr) (a : HlslAst.Expr) (t : Ty)
+    (hg : genExpr cx e = .ok a) (ht : Ir.typeOf W.sig cx.vty e = some t) (hok : Ir.okM (side cx W vis rsv) e = true) :
+    ∃ ta, Msl.typeOf M.msig env a = some ta ∧ ∀ σ, Msl.convR M.P ta t (Msl.eval M env a σ) = Ir.eval W e σ :=
+  ⟨mTy e t, (sim_exprM hag hw e a t hg ht hok).1, fun σ => (sim_exprM hag hw e a t hg ht hok).conv ht σ⟩
+
+/-- …and without any conversion unless the expression is the bare constant `Int32(i32::MIN)` (printed `-2147483648`, a
+`long` in Metal): same static type, same result. -/
+theorem gen_sem_expr_plain {W : World} {M : Msl.MWorld} {env : Ast.Env} {cx : Ctx} {vis : Var → Bool} {rsv : Nat → List Var}
+    (hag : AgreeM cx vis env) (hw : Worlds cx rsv W M) (e : Ir.Expr) (a : HlslAst.Expr) (t : Ty)
+    (hg : genExpr cx e = .ok a) (ht : Ir.typeOf W.sig cx.vty e = some t) (hok : Ir.okM (side cx W vis rsv) e = true)
+    (hn : Ir.isMin e = false) :
+    Msl.typeOf M.msig env a = some t ∧ ∀ σ, Msl.eval M env a σ = Ir.eval W e σ :=
+  (sim_exprM hag hw e a t hg ht hok).plain hn
+
+/-- the argument list of a call — user arguments followed by the callee's statics — evaluates, left to right, to the
+values of the `in` arguments, the *locations* of the out/inout arguments and of the statics, with the store the typed
+evaluation of the user arguments leaves. -/
+theorem gen_sem_args {W : World} {M : Msl.MWorld} {env : Ast.Env} {cx : Ctx} {vis : Var → Bool} {rsv : Nat → List Var}
+    (hag : AgreeM cx vis env) (hw : Worlds cx rsv W M) (es : Ir.Exprs) (as : HlslAst.Exprs) (ps : List (Dir × Ty)) (gs : List Nat)
+    (hg : genArgs cx es = .ok as) (hargs : Ir.argsOK W.sig cx.vty es ps = true)
+    (hok : Ir.okMArgs (side cx W vis rsv) es = true) (hvis : gs.all (fun g => vis (.glob g)) = true) :
+    ∀ σ, Msl.evalArgs M env (appendArgs as (globalArgs cx gs)) (mParams ps ++ globParams cx gs) σ =
+      match Ir.evalArgs W es ps σ with
+      | none => none
+      | some (l, σ1) => some (l.map toMArg ++ globMArgs gs, σ1) :=
+  sim_argsM hag hw es as ps _ _ _ hg hargs hok (globalArgs_eval hag gs hvis)
+
 
 end RsslVerif.Thm.C02Sem
